@@ -427,6 +427,17 @@ func shapeLattice(emit func(caseSpec)) {
 		}
 		add("shape.perm", fmt.Sprintf("file entry key order %v", names), dictOf(baseMultiKV([]any{fileEntry(basePL-1, []string{"b"}), fe}), false))
 	}
+	// pieces strings that are not a whole number of SHA-1 hashes, with the length a decoder that rounds down would accept
+	for _, pn := range []int{1, 19, 21, 39, 41, 59, 61} {
+		np := pn / 20
+		if np == 0 {
+			np = 1
+		}
+		kv := with(with(baseSingleKV(), "pieces", piecesOf(pn)), "length", np*basePL)
+		add("shape.pieces", fmt.Sprintf("single: pieces string of %d bytes, length=%d*pl", pn, np), dictOf(kv, false))
+		mf := baseMultiKV([]any{fileEntry(np*basePL-1, []string{"a"}), fileEntry(1, []string{"b"})})
+		add("shape.pieces", fmt.Sprintf("multi: pieces string of %d bytes, lengths sum to %d*pl", pn, np), dictOf(with(mf, "pieces", piecesOf(pn)), false))
+	}
 	// name variants
 	names := []named{{"absent", nil}, {`""`, ""}, {`"a"`, "a"}, {`".."`, ".."}, {`"."`, "."}, {`"/"`, "/"}, {`"a/b"`, "a/b"}, {`"../x"`, "../x"},
 		{`"\x00"`, "\x00"}, {`"\xff"`, "\xff"}, {"300*a", long}, {"300*a+.ext", long + ".ext"}, {`" "`, " "}}
